@@ -435,6 +435,11 @@ class Circuit:
                     errcnt += 1
                     blk.log_warning(
                         "%s timeout, check timeout value (%.1f s)", jobname, timeout)
+                except asyncio.CancelledError:
+                    # do not leave the remaining tasks running
+                    for _blk, other, _timeout in btt_list:
+                        other.cancel()
+                    raise
                 except Exception:
                     # will be logged below
                     pass
